@@ -69,14 +69,27 @@ Definition tok_is_brace (t : str) : bool :=
 Definition bibtex_len (s : str) : res nat :=
   do ts <- scan s; Ok (length (filter (fun t => negb (tok_is_brace (fst t))) ts)).
 
-(* utils.py:321-356 bibtex_prefix (after the fix: nothing for num_chars <= 0 or ""). *)
+(* utils.py:321-362 bibtex_prefix (after the fixes: nothing for num_chars <= 0 or ""; the
+   brace level is counted over the emitted characters, clamped at 0, so that braces opened
+   inside an unclosed special character are closed too).
+   [brace_count t lvl]: the inner loop `for brace in char` *)
+Fixpoint brace_count (t : str) (lvl : nat) : nat :=
+  match t with
+  | [] => lvl
+  | c :: r =>
+    if is_lbrace c then brace_count r (S lvl)
+    else if is_rbrace c then brace_count r (pred lvl)
+    else brace_count r lvl
+  end.
+(* [lastlevel] is the running brace_level *)
 Fixpoint prefix_go (ts : list tok) (len : Z) (n : Z) (lastlevel : nat) : str * nat :=
   match ts with
   | [] => ([], lastlevel)
-  | (t, l) :: rest =>
+  | (t, _) :: rest =>
+    let lvl := brace_count t lastlevel in
     let len' := if tok_is_brace t then len else (len + 1)%Z in
-    if (n <=? len')%Z then (t, l)
-    else let r := prefix_go rest len' n l in (t ++ fst r, snd r)
+    if (n <=? len')%Z then (t, lvl)
+    else let r := prefix_go rest len' n lvl in (t ++ fst r, snd r)
   end.
 Definition bibtex_prefix (s : str) (n : Z) : res str :=
   if (0 <? n)%Z then
@@ -160,11 +173,13 @@ Definition width_tok (cw : char -> Z) (t : tok) : Z :=
 Definition bibtex_width (cw : char -> Z) (s : str) : res Z :=
   do ts <- scan s; Ok (fold_left (fun a t => (a + width_tok cw t)%Z) ts 0%Z).
 
-(* utils.py:445-479 _find_closing_brace: position just after the brace that brings the
-   level (starting at 1) to 0, else just after the last brace seen, 0 if there is none *)
+(* utils.py:452-482 _find_closing_brace (after the fix): position just after the brace that
+   brings the level (starting at 1) to 0; if the level never gets there, the end of the
+   string (everything left belongs to the never-closed group).  [last] is unused since the
+   fix (kept for the signature). *)
 Fixpoint fcb_pos (s : str) (level i last : nat) : nat :=
   match s with
-  | [] => last
+  | [] => i
   | c :: t =>
     if is_lbrace c then fcb_pos t (S level) (S i) (S i)
     else if is_rbrace c then
